@@ -455,8 +455,8 @@ impl Run {
         match op {
             OpSpec::Vote { bump, node } => {
                 let cur = self.model.st().vote.unwrap_or((0, 0));
-                let v = if *bump > 0 { (cur.0 + *bump as u64, *node as u64) } else { (cur.0, cur.1.max(*node as u64)) };
-                self.model.save_vote(v).expect("resolved vote is legal");
+                let v = if *bump > 0 { (cur.0.saturating_add(*bump as u64), *node as u64) } else { (cur.0, cur.1.max(*node as u64)) };
+                self.model.save_vote(v).map_err(|e| Fail::new("harness-resolve", format!("resolved vote {v:?} is not legal: {e:?}")))?;
                 self.classes.hit("vote");
                 let res = self.rl_mut().save_vote(v);
                 self.wrote(res, &[Rec::Vote(v)], &format!("save_vote({v:?})"))
@@ -479,7 +479,7 @@ impl Run {
             OpSpec::Append { n, term, first, pay } => {
                 let last = self.model.st().last;
                 let (t0, i0) = match last {
-                    Some((t, i)) => (t, i + 1),
+                    Some((t, i)) => (t, i.saturating_add(1)),
                     None => (
                         1,
                         match first {
@@ -491,14 +491,14 @@ impl Run {
                 };
                 let mut t = match term {
                     TermSel::Same => t0,
-                    TermSel::Bump(k) => t0 + *k as u64,
+                    TermSel::Bump(k) => t0.saturating_add(*k as u64),
                 };
                 // Known class (C07): an entry whose log id is <= an id appended earlier can
                 // fall at or below the eviction boundary although it is not yet on disk.
                 if let Some(hi) = self.max_id_seen {
                     if (t, i0) <= hi {
                         if self.avoid_low_reappend {
-                            t = hi.0 + 1;
+                            t = hi.0.saturating_add(1);
                             self.excluded += 1;
                         } else {
                             self.classes.hit("reappend_at_or_below_earlier_id");
@@ -516,9 +516,9 @@ impl Run {
                 let mut entries = vec![];
                 let mut recs = vec![];
                 for k in 0..*n as u64 {
-                    let id = (t, i0 + k);
-                    let p = payload(t, i0 + k, *pay, k);
-                    self.model.append_one(id, p.clone()).expect("resolved append is legal");
+                    let id = (t, i0.saturating_add(k));
+                    let p = payload(t, id.1, *pay, k);
+                    self.model.append_one(id, p.clone()).map_err(|e| Fail::new("harness-resolve", format!("resolved append {id:?} is not legal: {e:?}")))?;
                     self.note_term(t);
                     if Some(id) > self.max_id_seen {
                         self.max_id_seen = Some(id);
@@ -539,16 +539,15 @@ impl Run {
             OpSpec::Truncate { pos } => {
                 let lo = next_index(self.model.st().purged.as_ref());
                 let mut cands = vec![lo];
-                if let (Some(f), Some(l)) = (self.model.first_live(), self.model.last_live()) {
-                    for i in f + 1..=l + 1 {
-                        if i != lo {
-                            cands.push(i);
-                        }
+                for k in self.model.cur.log.keys() {
+                    let i = k.saturating_add(1);
+                    if i != lo && *k != u64::MAX {
+                        cands.push(i);
                     }
                 }
                 let index = cands[pick(*pos, cands.len())];
                 let live_before = self.model.cur.log.len();
-                self.model.truncate(index).expect("resolved truncate is legal");
+                self.model.truncate(index).map_err(|e| Fail::new("harness-resolve", format!("resolved truncate {index} is not legal: {e:?}")))?;
                 if self.model.cur.log.len() < live_before {
                     self.classes.hit("truncate_removes");
                 }
@@ -565,7 +564,7 @@ impl Run {
                 } else if *beyond > 0 || live.is_empty() {
                     let b = (*beyond).max(1) as u64;
                     match st.last {
-                        Some((t, i)) => (t + (b > 1) as u64, i + b),
+                        Some((t, i)) => (t.saturating_add((b > 1) as u64), i.saturating_add(b)),
                         None => (1, b),
                     }
                 } else {
@@ -599,15 +598,15 @@ impl Run {
                 }
                 let id = if *beyond || cands.is_empty() {
                     if *beyond {
-                        let t = st.last.map(|l| l.0).unwrap_or(0).max(st.committed.map(|c| c.0).unwrap_or(0)) + 1;
-                        (t, st.last.map(|l| l.1).unwrap_or(0) + 3)
+                        let t = st.last.map(|l| l.0).unwrap_or(0).max(st.committed.map(|c| c.0).unwrap_or(0)).saturating_add(1);
+                        (t, st.last.map(|l| l.1).unwrap_or(0).saturating_add(3))
                     } else {
                         st.committed.unwrap_or((0, 0))
                     }
                 } else {
                     cands[pick(*pos, cands.len())]
                 };
-                self.model.commit(id).expect("resolved commit is legal");
+                self.model.commit(id).map_err(|e| Fail::new("harness-resolve", format!("resolved commit {id:?} is not legal: {e:?}")))?;
                 self.classes.hit("commit");
                 let res = self.rl_mut().commit(id);
                 self.wrote(res, &[Rec::Commit(id)], &format!("commit({id:?})"))
